@@ -1,12 +1,22 @@
 (* drv_common.ml — shared helpers of the model driver: runs the extracted Coq model on the same case files as the Rust harness.
    usage: driver <suite> <cases> <out>.  Zarith is used ONLY to parse/print decimal numbers;
    all arithmetic is done by the extracted code on Coq's own Z. *)
-module M = Model
+(* M = the extracted modules every suite needs; a suite adds its own area modules on top *)
+module M = struct
+  include BinNums
+  type z = coq_Z
+  type n = coq_N
+  include Datatypes
+  include Base
+  include Constants
+  include Fixed
+  include Curve
+end
 
 let rec pos_of_big (n : Z.t) : M.positive =
-  if Z.equal n Z.one then M.XH
-  else if Z.is_even n then M.XO (pos_of_big (Z.shift_right n 1))
-  else M.XI (pos_of_big (Z.shift_right n 1))
+  if Z.equal n Z.one then M.Coq_xH
+  else if Z.is_even n then M.Coq_xO (pos_of_big (Z.shift_right n 1))
+  else M.Coq_xI (pos_of_big (Z.shift_right n 1))
 
 let z_of_big (n : Z.t) : M.z =
   let s = Z.sign n in
@@ -14,9 +24,9 @@ let z_of_big (n : Z.t) : M.z =
 
 let rec big_of_pos (p : M.positive) : Z.t =
   match p with
-  | M.XH -> Z.one
-  | M.XO q -> Z.shift_left (big_of_pos q) 1
-  | M.XI q -> Z.succ (Z.shift_left (big_of_pos q) 1)
+  | M.Coq_xH -> Z.one
+  | M.Coq_xO q -> Z.shift_left (big_of_pos q) 1
+  | M.Coq_xI q -> Z.succ (Z.shift_left (big_of_pos q) 1)
 
 let big_of_z (z : M.z) : Z.t =
   match z with M.Z0 -> Z.zero | M.Zpos p -> big_of_pos p | M.Zneg p -> Z.neg (big_of_pos p)
@@ -27,12 +37,13 @@ let zi (i : int) : M.z = z_of_big (Z.of_int i)
 (* token stream *)
 type toks = { mutable l : string list }
 let toks_of_line (s : string) : toks =
-  { l = List.filter (fun x -> x <> "") (String.split_on_char ' ' (String.trim s)) }
+  { l = Stdlib.List.filter (fun x -> x <> "") (String.split_on_char ' ' (String.trim s)) }
 let next (t : toks) : string =
   match t.l with [] -> failwith "missing token" | x :: r -> t.l <- r; x
 let nz (t : toks) : M.z = z_of_big (Z.of_string (next t))
 let ni (t : toks) : int = int_of_string (next t)
 let nb (t : toks) : bool = ni t <> 0
+let nb_ (t : toks) : bool = ni t <> 0
 let at_end (t : toks) : bool = t.l = []
 
 let err_s (e : M.err) : string =
@@ -51,7 +62,7 @@ let parse_ir (t : toks) : M.ir_config =
   let opt = nz t in let pl = nz t in let mx = nz t in
   let insf = nz t in let insr = nz t in let grpf = nz t in let grpr = nz t in
   let zero = nz t in let hundred = nz t in
-  let pts = List.init 5 (fun _ -> let u = nz t in let r = nz t in { M.rp_util = u; rp_rate = r }) in
+  let pts = Stdlib.List.init 5 (fun _ -> let u = nz t in let r = nz t in { M.rp_util = u; rp_rate = r }) in
   { M.ir_optimal = opt; ir_plateau = pl; ir_max = mx; ir_ins_fixed = insf; ir_ins_rate = insr;
     ir_grp_fixed = grpf; ir_grp_rate = grpr; ir_zero = zero; ir_hundred = hundred; ir_points = pts;
     ir_curve_type = ct }
